@@ -953,7 +953,8 @@ def plan(prop, tier, seed, known):
         jobs.append(probe_job(prop, av))
         jobs.append({"name": "exhaust", "module": "ExhaustTrace.tla", "cfg": "ExhaustTrace.cfg", "driver": ["exhaust", "-seed", str(seed)]})
         jobs += design_jobs("Shrink", ["Shrink", "Shrink_all"], ["Shrink_big"], [("Shrink_reset", "NoOrphan"), ("Shrink_noresult", "Reclaimed")], q)
-        jobs += design_jobs("AllocTxn", ["AllocTxn"], [], [("AllocTxn_byte", "NeverTwice")], q)
+        jobs += design_jobs("AllocTxn", ["AllocTxn"], [], [("AllocTxn_byte", "NeverTwice"), ("AllocTxn_early", "NeverTwice"),
+                                                           ("AllocTxn_freefirst", "NeverTwice"), ("AllocTxn_cancel", "Coherent")], q)
         jobs += design_jobs("BlockMap", ["BlockMap"], ["BlockMap_big", "BlockMap_all"], [("BlockMap_noundo", "Covered")], q)
         # room accounting of the freeing transactions: every placement of a file's blocks over the bitmap areas (real constants), the
         # original condition as negative control, and the real transactions' sizes against the model
